@@ -91,12 +91,13 @@ theorem C18_reencode_same_hash (limit : Nat) (c : XChange) (hw : ChangeWF c) (hl
   ⟨_, c, C18_change_roundtrip limit c hw hlim, rfl, rfl⟩
 
 set_option maxRecDepth 100000 in
-/-- non-vacuity (evaluated): the hash `from_bytes` computes for the sample's chunk -/
-example :
-    (match decodeChange 100 (encodeChange sampleX) with
-     | .ok (h, _) => h == [21, 209, 96, 132, 13, 143, 173, 42, 10, 6, 245, 124, 89, 135, 243, 241, 14, 60, 47, 218, 150,
-        238, 32, 13, 14, 84, 13, 182, 161, 116, 73, 196]
-     | _ => false) = true := by decide +kernel
+/-- non-vacuity: the hypotheses hold for the sample (13 operations, budget 100), so its chunk decodes
+    to a change that is written back with the same hash.  (An evaluated instance of the hash equality —
+    SHA-256 in the kernel — is `C18_reencode_sample` in `Props/C18.lean`.) -/
+example : ∃ h x, decodeChange 100 (encodeChange sampleX) = .ok (h, x) ∧
+    encodeChange x = encodeChunk Consts.CHUNK_TYPE_CHANGE (changeBody x) ∧
+    h = chunkHash Consts.CHUNK_TYPE_CHANGE (changeBody x) :=
+  C18_reencode_same_hash 100 sampleX (by decide +kernel) (by decide)
 
 /-- **PARTIAL** towards `C18_wf_of_local`.  Full statement (not proved): *for every transaction `t` the
     model's local editing functions build on a document (`Model/Local.lean`: `Doc.beginTx`, then
